@@ -1,7 +1,7 @@
 package main
 
 // conc: static write sets of the exported entry points of sm2, sm3, sm4, x509 and of the Config / session-cache /
-// loader part of gmtls -> Gen/ConcWriteSets.v  (C20: tie between the access table coq/Conc/AccessTable.v and the source).
+// loader / Conn part of gmtls -> Gen/ConcWriteSets.v  (C20: tie between the access table coq/Conc/AccessTable.v and the source).
 //
 // For every exported function and method (entry point) the target computes, from the CURRENT source (go/parser +
 // go/types, dependencies from compiler export data), the writes to SHARED state reachable through calls inside the
@@ -18,10 +18,18 @@ package main
 //   * writes through parameters are attributed at the call sites to what the caller passes (global, caller's own
 //     parameter, local);
 //   * calls through interfaces go to every method of that name in the analysed packages whose receiver implements
-//     the interface; calls of function-typed fields / parameters (user callbacks) are ignored;
+//     the interface; calls of function-typed fields / parameters / variables (callbacks, table entries) and of methods
+//     of interface values from outside (io, net, crypto/cipher ...) have no attributable effect: each distinct one is
+//     LISTED in gen_unattributed (Conc/SourceTie.v bounds that list by a reviewed one), nothing is dropped silently;
 //   * functions outside the analysed packages are assumed not to write through their arguments, except a list of
 //     known mutators (copy, delete, io.ReadFull, Read, container/list, big.Int setters, bytes.Buffer, sync/atomic).
-// gmtls.Conn and the handshake code are outside this target (instance-level distinction c.in / c.out is needed there).
+// gmtls.Conn: the analysis is about ONE connection shared by goroutines.  Every expression of type (*)Conn denotes it
+// (receiver, hs.c, parameters).  A Conn field that embeds or points to an object of its own (c.in, c.out halfConn,
+// c.rawInput / c.input / c.hand blocks and buffers, the hash and cipher objects behind them) is remembered on the way
+// ("via"): writes behind it are named "gmtls.Conn.<field>><path>" and a mutex behind it "gmtls.Conn.<field>><mutex>", so
+// c.in and c.out (one type, two instances) stay apart.  c.config points to the shared Config: names behind it are the
+// Config's own.  Everything lexically inside Conn.Handshake carries the extra lock "once:gmtls.Conn.Handshake" (the
+// handshakeMutex + handshakeComplete() construct of the table).  handleRenegotiation is not followed (gen_excluded).
 
 import (
 	"bytes"
@@ -47,11 +55,11 @@ var concPkgs = []string{"sm3", "sm2", "sm4", "x509", "gmtls"} // dependency orde
 var sharedTypes = map[string]bool{
 	"sm4.Sm4Cipher": true, "x509.CertPool": true, "x509.Certificate": true, "gmtls.Config": true, "gmtls.lruSessionCache": true,
 	"gmtls.lruSessionCacheEntry": true, "sm2.PublicKey": true, "sm2.PrivateKey": true, "sm2.sm2P256Curve": true, "gmtls.GMSupport": true,
-	"gmtls.Certificate": true,
+	"gmtls.Certificate": true, "gmtls.Conn": true,
 }
 
 // gmtls entry points in scope: methods of these receiver types, and these functions
-var gmtlsRecv = map[string]bool{"Config": true, "lruSessionCache": true, "GMSupport": true}
+var gmtlsRecv = map[string]bool{"Config": true, "lruSessionCache": true, "GMSupport": true, "Conn": true}
 var gmtlsFuncs = map[string]bool{"NewLRUClientSessionCache": true, "LoadX509KeyPair": true, "X509KeyPair": true, "LoadGMX509KeyPair": true,
 	"LoadGMX509KeyPairs": true, "GMX509KeyPairs": true, "GMX509KeyPairsSingle": true, "NewBasicAutoSwitchConfig": true, "NewGMSupport": true}
 
@@ -61,6 +69,7 @@ const (
 	bFresh cBase = iota
 	bGlobal
 	bParam
+	bSelf // the one gmtls.Conn under analysis (receiver of the entry point, and every *Conn reached through local state)
 )
 
 // abstract address: where a pointer-like expression may point
@@ -69,10 +78,13 @@ type cRoot struct {
 	name  string // bGlobal: "pkg.Var"
 	param int    // bParam: index (receiver first)
 	path  string // last field selection on a named struct: "pkg.Type.field"
+	via   string // field of gmtls.Conn the access goes through ("in", "out", "rawInput", ...): distinguishes c.in from c.out
 	elems bool   // behind an index / slice / append
 }
 
-func (r cRoot) key() string { return fmt.Sprintf("%d|%s|%d|%s|%v", r.base, r.name, r.param, r.path, r.elems) }
+func (r cRoot) key() string {
+	return fmt.Sprintf("%d|%s|%d|%s|%s|%v", r.base, r.name, r.param, r.path, r.via, r.elems)
+}
 
 type cRoots map[string]cRoot
 
@@ -106,10 +118,10 @@ type cWrite struct {
 	locks  []string
 }
 type cCall struct {
-	callees []string   // function keys (FullName)
-	args    []cRoots   // receiver first for methods
-	locks   []string   // held at the call (caller-local)
-	extra   []string   // additional locks for the callee (once)
+	callees []string // function keys (FullName)
+	args    []cRoots // receiver first for methods
+	locks   []string // held at the call (caller-local)
+	extra   []string // additional locks for the callee (once)
 }
 type cFunc struct {
 	key    string
@@ -118,6 +130,8 @@ type cFunc struct {
 	params []*types.Var // receiver first
 	writes []cWrite
 	calls  []cCall
+	rets   cRoots   // what the pointer-like results may point to (in terms of the parameters)
+	unattr []string // calls whose effects cannot be attributed: function values, methods of user-supplied interface values
 }
 type cPkg struct {
 	name string
@@ -230,8 +244,10 @@ func loadConc(c *Ctx) (*concAn, error) {
 			}
 		}
 	}
-	for _, k := range sortedKeys(an.funcs) {
-		an.summarise(an.funcs[k])
+	for pass := 0; pass < 3; pass++ { // results of calls feed the next pass
+		for _, k := range sortedKeys(an.funcs) {
+			an.summarise(an.funcs[k])
+		}
 	}
 	return an, nil
 }
@@ -278,6 +294,69 @@ type fnState struct {
 	f      *cFunc
 	locals map[types.Object]cRoots
 	held   []string
+	clos   map[types.Object]bool // local variables that only ever hold function literals of this function
+}
+
+// local variables whose every definition / assignment is a function literal: calling one runs code that is analysed
+// where the literal stands; any other function-typed variable (a copy of a callback field, a table entry) is a
+// function value of unknown origin
+func (s *fnState) closureVars() map[types.Object]bool {
+	if s.clos != nil {
+		return s.clos
+	}
+	info := s.f.pkg.info
+	good, bad := map[types.Object]bool{}, map[types.Object]bool{}
+	note := func(lhs ast.Expr, rhs ast.Expr) {
+		id, ok := lhs.(*ast.Ident)
+		if !ok {
+			return
+		}
+		o := info.Defs[id]
+		if o == nil {
+			o = info.Uses[id]
+		}
+		if o == nil {
+			return
+		}
+		if _, isSig := o.Type().Underlying().(*types.Signature); !isSig {
+			return
+		}
+		if _, isLit := rhs.(*ast.FuncLit); isLit && rhs != nil {
+			good[o] = true
+		} else {
+			bad[o] = true
+		}
+	}
+	ast.Inspect(s.f.decl.Body, func(n ast.Node) bool {
+		switch x := n.(type) {
+		case *ast.AssignStmt:
+			if len(x.Lhs) == len(x.Rhs) {
+				for i := range x.Lhs {
+					note(x.Lhs[i], x.Rhs[i])
+				}
+			} else {
+				for i := range x.Lhs {
+					note(x.Lhs[i], nil)
+				}
+			}
+		case *ast.ValueSpec:
+			for i, nm := range x.Names {
+				if i < len(x.Values) {
+					note(nm, x.Values[i])
+				} else {
+					note(nm, nil)
+				}
+			}
+		}
+		return true
+	})
+	s.clos = map[types.Object]bool{}
+	for o := range good {
+		if !bad[o] && s.paramIndex(o) < 0 {
+			s.clos[o] = true
+		}
+	}
+	return s.clos
 }
 
 func isPointerLike(t types.Type) bool {
@@ -302,8 +381,21 @@ func (s *fnState) paramIndex(o types.Object) int {
 	return -1
 }
 
-// where may the object denoted by e live (for lvalues: the container written; for pointers: the pointee)
+func isConnType(t types.Type) bool { return t != nil && typeName(t) == "gmtls.Conn" }
+
+// where may the object denoted by e live (for lvalues: the container written; for pointers: the pointee).
+// The analysis is about ONE connection: every expression of type (*)gmtls.Conn (receiver, parameter, field of a
+// handshake-state struct, result) denotes that connection.
 func (s *fnState) roots(e ast.Expr) cRoots {
+	if tv, ok := s.f.pkg.info.Types[e]; ok && isConnType(tv.Type) {
+		out := cRoots{}
+		out.add(cRoot{base: bSelf})
+		return out
+	}
+	return s.rootsRaw(e)
+}
+
+func (s *fnState) rootsRaw(e ast.Expr) cRoots {
 	info := s.f.pkg.info
 	out := cRoots{}
 	switch x := e.(type) {
@@ -367,6 +459,9 @@ func (s *fnState) roots(e ast.Expr) cRoots {
 				if owner != "" {
 					nr.path = owner + "." + sel.Obj().Name()
 					nr.elems = false
+					if owner == "gmtls.Conn" {
+						nr.via = sel.Obj().Name()
+					}
 				} else if nr.path == "" && nr.base == bGlobal {
 					nr.path = nr.name + "." + sel.Obj().Name()
 				}
@@ -411,9 +506,67 @@ func (s *fnState) roots(e ast.Expr) cRoots {
 		if tv, ok := info.Types[x.Fun]; ok && tv.IsType() && len(x.Args) == 1 { // conversion
 			return s.roots(x.Args[0])
 		}
+		// result of a function of the analysed packages: what its return statements may yield
+		if keys, args, ok := s.internalCallees(x); ok {
+			for _, k := range keys {
+				if g := s.an.funcs[k]; g != nil {
+					for _, r := range g.rets {
+						switch r.base {
+						case bParam:
+							if r.param < len(args) {
+								out.addAll(compose(r, args[r.param]))
+							}
+						case bFresh:
+						default:
+							out.add(r)
+						}
+					}
+				}
+			}
+			out.add(cRoot{base: bFresh})
+			return out
+		}
 	}
 	out.add(cRoot{base: bFresh})
 	return out
+}
+
+// callee keys and argument roots (receiver first) of a call into the analysed packages
+func (s *fnState) internalCallees(x *ast.CallExpr) ([]string, []cRoots, bool) {
+	info := s.f.pkg.info
+	var fn *types.Func
+	var recv ast.Expr
+	var sel *types.Selection
+	switch f := x.Fun.(type) {
+	case *ast.Ident:
+		fn, _ = info.Uses[f].(*types.Func)
+	case *ast.SelectorExpr:
+		if sl, ok := info.Selections[f]; ok {
+			if sl.Kind() == types.MethodVal {
+				fn, _ = sl.Obj().(*types.Func)
+				recv, sel = f.X, sl
+			}
+		} else {
+			fn, _ = info.Uses[f.Sel].(*types.Func)
+		}
+	}
+	if fn == nil || fn.Pkg() == nil || !strings.HasPrefix(fn.Pkg().Path(), gmsmPath) {
+		return nil, nil, false
+	}
+	var args []cRoots
+	if recv != nil {
+		args = append(args, s.roots(recv))
+	}
+	for _, a := range x.Args {
+		args = append(args, s.roots(a))
+	}
+	keys := []string{fn.FullName()}
+	if recv != nil {
+		if _, isIface := sel.Recv().Underlying().(*types.Interface); isIface {
+			keys = s.an.implementers(sel.Recv(), fn.Name())
+		}
+	}
+	return keys, args, true
 }
 
 func derefStruct(t types.Type) (*types.Struct, bool) {
@@ -457,7 +610,17 @@ func (s *fnState) lockName(recv ast.Expr, sel *types.Selection) string {
 	if len(names) == 0 {
 		return "?"
 	}
-	return names[0]
+	n := names[0]
+	// c.in.Lock() and c.out.Lock() are different mutexes of the same type
+	if !strings.HasPrefix(n, "gmtls.Conn.") {
+		for _, r := range rs {
+			if r.via != "" && !connPointerFields[r.via] {
+				n = "gmtls.Conn." + r.via + ">" + n
+				break
+			}
+		}
+	}
+	return n
 }
 
 func (s *fnState) hold(n string) {
@@ -574,7 +737,18 @@ func (s *fnState) call(x *ast.CallExpr) {
 		}
 	}
 	if fn == nil {
-		return // function value / callback / conversion
+		// conversion, or a function value (callback field, closure variable): effects not attributable
+		if tv, ok := info.Types[x.Fun]; !(ok && tv.IsType()) {
+			// a closure held in a local variable is analysed where it is written
+			if id, isId := x.Fun.(*ast.Ident); !(isId && info.Uses[id] != nil && s.closureVars()[info.Uses[id]]) {
+				n := "funcvalue:" + types.ExprString(x.Fun)
+				if isId { // a bare variable name says nothing without its function
+					n += " in " + strings.ReplaceAll(s.f.key, gmsmPath, "")
+				}
+				s.f.unattr = append(s.f.unattr, n)
+			}
+		}
+		return
 	}
 	full := fn.FullName()
 	pkgPath := ""
@@ -648,10 +822,16 @@ func (s *fnState) call(x *ast.CallExpr) {
 	// every other interface value (io.Reader, io.Writer, net.Conn, ...) is supplied by the user
 	if recv != nil {
 		if _, isIface := sel.Recv().Underlying().(*types.Interface); isIface {
-			if extIfaces[typeNameFull(sel.Recv())] {
+			// (an interface type DECLARED in the analysed packages that embeds a library interface - gmtls.aead,
+			// gmtls.cbcMode, gmtls.constantTimeHash - goes to the implementations here AND stays on the list, since
+			// library objects are stored behind it as well)
+			if extIfaces[typeNameFull(sel.Recv())] || strings.HasPrefix(typeNameFull(sel.Recv()), gmsmPath) {
 				if cs := s.an.implementers(sel.Recv(), fn.Name()); len(cs) > 0 {
 					s.f.calls = append(s.f.calls, cCall{callees: cs, args: args, locks: s.locksNow()})
 				}
+			}
+			if !extIfaces[typeNameFull(sel.Recv())] {
+				s.f.unattr = append(s.f.unattr, "iface:"+types.TypeString(sel.Recv(), nil)+"."+fn.Name())
 			}
 			if fn.Name() == "Read" && len(x.Args) == 1 { // io.Reader fills its argument
 				s.writeElems(x.Args[0])
@@ -847,8 +1027,29 @@ func (s *fnState) collectLocals() {
 
 func (an *concAn) summarise(f *cFunc) {
 	s := &fnState{an: an, f: f, locals: map[types.Object]cRoots{}}
+	f.writes, f.calls, f.unattr = nil, nil, nil
 	s.collectLocals()
 	s.block(f.decl.Body)
+	// results
+	rets := cRoots{}
+	ast.Inspect(f.decl.Body, func(n ast.Node) bool {
+		switch x := n.(type) {
+		case *ast.FuncLit:
+			return false
+		case *ast.ReturnStmt:
+			for _, e := range x.Results {
+				if tv, ok := f.pkg.info.Types[e]; ok && tv.Type != nil && isPointerLike(tv.Type) {
+					for _, r := range s.roots(e) {
+						if r.base != bFresh {
+							rets.add(r)
+						}
+					}
+				}
+			}
+		}
+		return true
+	})
+	f.rets = rets
 }
 
 // ---- resolution from an entry point -------------------------------------------------------------------------------
@@ -860,7 +1061,7 @@ type srcWrite struct {
 func compose(callee cRoot, actual cRoots) cRoots {
 	out := cRoots{}
 	switch callee.base {
-	case bGlobal:
+	case bGlobal, bSelf:
 		out.add(callee)
 	case bParam:
 		for _, a := range actual {
@@ -874,11 +1075,17 @@ func compose(callee cRoot, actual cRoots) cRoots {
 			} else if callee.elems {
 				n.elems = true
 			}
+			if callee.via != "" {
+				n.via = callee.via
+			}
 			out.add(n)
 		}
 	}
 	return out
 }
+
+// fields of gmtls.Conn that point to objects of their own (not parts of the connection)
+var connPointerFields = map[string]bool{"config": true}
 
 func locOf(r cRoot) string {
 	loc := ""
@@ -887,11 +1094,13 @@ func locOf(r cRoot) string {
 		loc = r.name
 	case r.path != "":
 		owner := r.path[:strings.LastIndex(r.path, ".")]
-		if r.base == bGlobal || sharedTypes[owner] {
+		switch {
+		case r.via != "" && !connPointerFields[r.via] && !strings.HasPrefix(r.path, "gmtls.Conn."):
+			// part of the connection reached through one of its fields: keep which field (c.in / c.out ...)
+			loc = "gmtls.Conn." + r.via + ">" + r.path
+		case sharedTypes[owner]:
 			loc = r.path
 		}
-	case r.base == bGlobal:
-		loc = r.name
 	}
 	if loc != "" && r.elems {
 		loc += "[]"
@@ -899,7 +1108,15 @@ func locOf(r cRoot) string {
 	return loc
 }
 
-func (an *concAn) resolve(entry *cFunc) []srcWrite {
+const connHandshakeKey = "(*" + gmsmPath + "gmtls.Conn).Handshake"
+
+// run-at-most-once sections that are not sync.Once objects: (*Conn).Handshake (handshakeMutex + handshakeComplete flag)
+var onceLike = map[string]string{connHandshakeKey: "once:gmtls.Conn.Handshake"}
+
+// outside the model (and the claim): renegotiation
+var excludedCallees = map[string]bool{"(*" + gmsmPath + "gmtls.Conn).handleRenegotiation": true}
+
+func (an *concAn) resolve(entry *cFunc, unattr, excluded map[string]bool) []srcWrite {
 	seen := map[string]bool{}
 	out := map[srcWrite]bool{}
 	var dfs func(f *cFunc, bind []cRoots, locks []string)
@@ -913,6 +1130,12 @@ func (an *concAn) resolve(entry *cFunc) []srcWrite {
 			return
 		}
 		seen[k] = true
+		if tag, ok := onceLike[f.key]; ok {
+			locks = mergeLocks(locks, []string{tag})
+		}
+		for _, u := range f.unattr {
+			unattr[u] = true
+		}
 		actual := func(r cRoot) cRoots {
 			if r.base == bParam {
 				if r.param < len(bind) {
@@ -939,6 +1162,10 @@ func (an *concAn) resolve(entry *cFunc) []srcWrite {
 				if g == nil {
 					continue
 				}
+				if excludedCallees[ck] {
+					excluded[ck] = true
+					continue
+				}
 				nb := make([]cRoots, len(g.params))
 				for i := range nb {
 					nb[i] = cRoots{}
@@ -956,7 +1183,10 @@ func (an *concAn) resolve(entry *cFunc) []srcWrite {
 	bind := make([]cRoots, len(entry.params))
 	for i, p := range entry.params {
 		bind[i] = cRoots{}
-		if isPointerLike(p.Type()) || isStruct(p.Type()) {
+		switch {
+		case isConnType(p.Type()):
+			bind[i].add(cRoot{base: bSelf})
+		case isPointerLike(p.Type()) || isStruct(p.Type()):
 			bind[i].add(cRoot{base: bParam, param: i})
 		}
 	}
@@ -1028,6 +1258,7 @@ func init() {
 		}
 		var ents []ent
 		n := 0
+		unattr, excluded := map[string]bool{}, map[string]bool{}
 		for _, k := range sortedKeys(an.funcs) {
 			f := an.funcs[k]
 			name, ok := entryName(f)
@@ -1035,7 +1266,7 @@ func init() {
 				continue
 			}
 			n++
-			if ws := an.resolve(f); len(ws) > 0 {
+			if ws := an.resolve(f, unattr, excluded); len(ws) > 0 {
 				ents = append(ents, ent{name, ws})
 			}
 		}
@@ -1067,7 +1298,27 @@ func init() {
 			}
 			b.WriteString("])")
 		}
-		b.WriteString("].\n")
+		b.WriteString("].\n\n")
+		strList := func(name string, m map[string]bool) {
+			keys := make([]string, 0, len(m))
+			for k := range m {
+				keys = append(keys, strings.TrimPrefix(strings.ReplaceAll(k, gmsmPath, ""), ""))
+			}
+			sort.Strings(keys)
+			fmt.Fprintf(&b, "Definition %s : list string :=\n  [", name)
+			for i, k := range keys {
+				if i > 0 {
+					b.WriteString(";\n   ")
+				}
+				fmt.Fprintf(&b, "%q", k)
+			}
+			b.WriteString("].\n\n")
+		}
+		b.WriteString("(* calls reachable from the entry points whose effects the analysis cannot attribute: calls of function values\n" +
+			"   (callback fields, closures) and methods of interface values supplied by the user (net.Conn, io.Reader, ...) *)\n")
+		strList("gen_unattributed", unattr)
+		b.WriteString("(* functions deliberately left out of the analysis (outside the model) although reachable *)\n")
+		strList("gen_excluded", excluded)
 		fmt.Printf("gen: conc analysed %d entry points, %d with shared writes\n", n, len(ents))
 		path := filepath.Join(c.Out, "ConcWriteSets.v")
 		old, err := os.ReadFile(path)
